@@ -599,7 +599,8 @@ theorem TInv_complete_head (s : Rpc) (hs : Safe s) (y : Nat) (code : Int) (todo 
     · rcases List.mem_cons.mp h with h | h
       · exact absurd h (hne e he)
       · exact Or.inr h
-  simp only [Rpc.complete, maxDepth, Rpc.completeF]
+  show TInv (Rpc.completeF (31 + 1) s (y : Int) code).1 todo
+  rw [Rpc.completeF]
   cases hfind : pendingFind s.pending (y : Int) with
   | none =>
     apply drop s h
@@ -634,7 +635,7 @@ theorem TInv_complete_head (s : Rpc) (hs : Safe s) (y : Nat) (code : Int) (todo 
         have h1 := frame_doAct _ goodTInv.frame goodTInv.req Act.noCleanup (fun _ => True) goodTInv.nc
           (Rpc.completeF 31) (fun s hp id code _ => this s hp id code trivial) 0 t a ht (hall a (by simp))
         exact goodTInv.trans _ _ _ h1 (iha (fun b hb => hall b (by simp [hb])) _ (Safe_of_prog _ _ h1.1 ht))
-    exact (key _ (script_allowed Act.noCleanup s.prog hs cb.script) _ hs).2 todo h1
+    exact (key _ (script_allowed Act.noCleanup s.prog hs cb.script) ({ s with pending := pendingErase s.pending k } : Rpc) hs).2 todo h1
 
 theorem TInv_completeAll (code : Int) (items : List Nat) : ∀ (s : Rpc) (todo : List Nat), Safe s →
     TInv s (items ++ todo) → TInv (s.completeAll code items).1 todo := by
